@@ -64,9 +64,9 @@ struct Th {
 struct Mx { const void *addr; int owner; uint32_t vc[MAXT]; };
 struct Pt { int8_t cur; uint8_t mask; uint8_t n; uint8_t chosen; uint8_t kind; uint8_t cur_enabled; };
 struct Dev { uint32_t pos; uint32_t alt; };
-struct Race { uintptr_t addr; uint8_t t1, w1, t2, w2; };
+struct Race { uintptr_t addr; uint8_t t1, w1, t2, w2; };   // w2 bit 1 set: found by the lockset rule, not by happens-before
 
-static Th th[MAXT];
+static Th *th;     // on the heap: the harness's own state must not look like the library's static storage
 static int nth = 0;
 static volatile bool active = false;
 static __thread int self = -1;
@@ -87,6 +87,11 @@ static uint32_t *sh_wclk;            // clock of last write
 static int8_t *sh_wtid;              // thread of last write (+1; 0 = none)
 static uint32_t *sh_rclk[MAXT];      // clock of last read per thread
 static uint8_t *sh_touch;            // bit mask of threads that touched the byte
+static uint8_t *sh_state;            // Eraser state: 0 virgin, 1 exclusive, 2 shared (read only), 3 shared-modified
+static int8_t *sh_owner;             // first thread (exclusive state)
+static uint32_t *sh_ls;              // candidate lockset (bit i = i-th modelled mutex)
+static uint32_t held[MAXT];          // modelled mutexes currently held per thread
+static std::vector<uintptr_t> *written;   // distinct static addresses written while the bodies ran
 
 static void out_line(const char *fmt, ...) {
   char b[4096];
@@ -170,6 +175,7 @@ static void static_access(const void *a, unsigned size, int is_write) {
     if (other) point(K_WRITE, a);
   } else n_static_r++;
   uint32_t my = th[t].vc[t];
+  size_t nr0 = races->size();
   for (unsigned i = 0; i < size; i++) {
     uintptr_t o = off + i;
     int wt = sh_wtid[o] - 1;
@@ -179,6 +185,21 @@ static void static_access(const void *a, unsigned size, int is_write) {
       sh_wclk[o] = my; sh_wtid[o] = (int8_t)(t + 1);
     } else sh_rclk[t][o] = my;
     sh_touch[o] |= (uint8_t)(1u << t);
+    // lockset discipline (Eraser): a location written after it became shared must have a common modelled lock
+    uint8_t stt = sh_state[o];
+    if (stt == 0) { sh_state[o] = 1; sh_owner[o] = (int8_t)t; }
+    else if (stt == 1) {
+      if (sh_owner[o] != t) { sh_state[o] = is_write ? 3 : 2; sh_ls[o] = held[t]; if (is_write && !held[t]) add_race(st_lo + o, sh_owner[o], 1, t, 1 | 2); }
+    } else {
+      sh_ls[o] &= held[t];
+      if (is_write) sh_state[o] = 3;
+      if (sh_state[o] == 3 && !sh_ls[o]) add_race(st_lo + o, sh_owner[o], 1, t, (is_write ? 1 : 0) | 2);
+    }
+  }
+  if (races->size() > nr0 + 1) races->resize(nr0 + 1);      // one entry per racing access, not per byte
+  if (is_write && written->size() < 4096) {
+    uintptr_t a0 = (uintptr_t)a;
+    if (std::find(written->begin(), written->end(), a0) == written->end()) written->push_back(a0);
   }
 }
 
@@ -229,9 +250,11 @@ static void resolve_real() {
 }
 static inline bool modelled(const void *m) { return active && self >= 0 && is_static(m); }
 
+static int mx_index(const Mx &m) { return (int)(&m - &(*mxs)[0]); }
 static void acquire(Mx &m) {
   int t = self;
   m.owner = t;
+  if (mx_index(m) < 32) held[t] |= 1u << mx_index(m);
   for (int u = 0; u < MAXT; u++) if (m.vc[u] > th[t].vc[u]) th[t].vc[u] = m.vc[u];
 }
 static void release(Mx &m) {
@@ -239,6 +262,7 @@ static void release(Mx &m) {
   memcpy(m.vc, th[t].vc, sizeof m.vc);
   th[t].vc[t]++;
   m.owner = -1;
+  if (mx_index(m) < 32) held[t] &= ~(1u << mx_index(m));
 }
 
 extern "C" int pthread_mutex_lock(pthread_mutex_t *m) {
@@ -267,6 +291,7 @@ extern "C" int pthread_mutex_unlock(pthread_mutex_t *m) {
     char b[160];
     snprintf(b, sizeof b, "unlock-by-non-owner mutex=+0x%lx thread=%d owner=%d", (unsigned long)((uintptr_t)m - st_lo), self, x.owner);
     if (diags->size() < 8) diags->push_back(b);
+    if (x.owner >= 0 && mx_index(x) < 32) held[x.owner] &= ~(1u << mx_index(x));
     x.owner = -1;
   }
   return 0;
@@ -398,6 +423,7 @@ static void flush_result(const char *status) {
   if (!buf.empty()) out_line("%s", buf.c_str());
   for (auto &r : *races) out_line("race %lx %u %u %u %u\n", (unsigned long)r.addr, r.t1, r.w1, r.t2, r.w2);
   for (auto &d : *diags) out_line("diag %s\n", d.c_str());
+  for (auto a : *written) out_line("wr %lx\n", (unsigned long)a);
   if (!strcmp(status, "deadlock")) {
     for (int i = 0; i < nth; i++)
       out_line("diag thread %d state=%d pending=%d obj=+0x%lx\n", i, th[i].state, th[i].pend_kind,
@@ -442,6 +468,9 @@ static void setup_shadow() {
   auto mm = [](size_t bytes) { void *p = mmap(nullptr, bytes, PROT_READ | PROT_WRITE, MAP_PRIVATE | MAP_ANONYMOUS | MAP_NORESERVE, -1, 0); if (p == MAP_FAILED) { perror("mmap"); exit(2); } return p; };
   sh_wclk = (uint32_t *)mm(n * 4); sh_wtid = (int8_t *)mm(n); sh_touch = (uint8_t *)mm(n);
   for (int i = 0; i < MAXT; i++) sh_rclk[i] = (uint32_t *)mm(n * 4);
+  sh_state = (uint8_t *)mm(n); sh_owner = (int8_t *)mm(n); sh_ls = (uint32_t *)mm(n * 4);
+  written = new std::vector<uintptr_t>;
+  th = new Th[MAXT];
   mxs = new std::vector<Mx>; mxs->reserve(64);
   trace = new std::vector<Pt>; trace->reserve(4096);
   races = new std::vector<Race>; diags = new std::vector<std::string>;
@@ -453,6 +482,7 @@ struct Result {
   std::vector<Pt> pts;
   std::vector<Race> races;
   std::vector<std::string> diags;
+  std::vector<uintptr_t> written;
   std::vector<unsigned long long> obs;
   std::vector<int> wrong;
   std::vector<std::vector<int>> ids;
@@ -531,6 +561,7 @@ static Result exec_schedule(const std::vector<const BodyDef *> &bodies, const st
       unsigned long a; unsigned t1, w1, t2, w2;
       if (sscanf(s + 5, "%lx %u %u %u %u", &a, &t1, &w1, &t2, &w2) == 5) r.races.push_back(Race{(uintptr_t)a, (uint8_t)t1, (uint8_t)w1, (uint8_t)t2, (uint8_t)w2});
     } else if (!strncmp(s, "diag ", 5)) r.diags.push_back(s + 5);
+    else if (!strncmp(s, "wr ", 3)) r.written.push_back((uintptr_t)strtoul(s + 3, nullptr, 16));
     else if (!strncmp(s, "obs ", 4)) {
       int t; unsigned long long h; size_t len; int w;
       if (sscanf(s + 4, "%d %llx %zu %d", &t, &h, &len, &w) == 4) { r.obs.push_back(h); r.wrong.push_back(w); }
@@ -565,6 +596,7 @@ struct Stats {
   std::vector<Viol> viols;
   std::set<std::string> viol_keys;
   std::set<std::string> diags;
+  std::set<uintptr_t> written;
   bool complete = true;
   long max_depth = 0;
 };
@@ -586,6 +618,7 @@ static void judge(const Result &r, const std::vector<Dev> &dv) {
   S.schedules++;
   S.max_points = std::max(S.max_points, r.pts.size());
   for (auto &d : r.diags) if (S.diags.size() < 16) S.diags.insert(d);
+  for (auto a : r.written) S.written.insert(a);
   for (auto &rc : r.races) if (!S.races.count(rc.addr)) S.races[rc.addr] = std::make_pair(rc, devs_str(dv));
   if (r.status != "ok") {
     std::string detail = r.status;
@@ -659,6 +692,7 @@ static void emit_stats(FILE *f) {
   for (auto &kv : S.races) fprintf(f, "race %lx %u %u %u %u %s\n", (unsigned long)kv.first, kv.second.first.t1, kv.second.first.w1, kv.second.first.t2, kv.second.first.w2, kv.second.second.empty() ? "-" : kv.second.second.c_str());
   for (auto &v : S.viols) fprintf(f, "viol %s\t%s\t%s\n", v.type.c_str(), v.detail.c_str(), v.devs.empty() ? "-" : v.devs.c_str());
   for (auto &d : S.diags) fprintf(f, "diag %s\n", d.c_str());
+  for (auto a : S.written) fprintf(f, "wr %lx\n", (unsigned long)a);
   fflush(f);
 }
 
@@ -701,7 +735,7 @@ int main(int argc, char **argv) {
   for (auto *b : g_bodies) {
     std::vector<const BodyDef *> one{b};
     Result a = exec_schedule(one, {}, g_timeout_ms * 5), c = exec_schedule(one, {}, g_timeout_ms * 5);
-    if (a.status != "ok" || c.status != "ok" || a.obs.size() != 1 || a.obs != c.obs) {
+    if (getenv("VS_NOREF")==nullptr && (a.status != "ok" || c.status != "ok" || a.obs.size() != 1 || a.obs != c.obs)) {
       fprintf(stderr, "HARNESS ERROR: body %s alone: status %s/%s or nondeterministic observation\n", b->name, a.status.c_str(), c.status.c_str());
       return 2;
     }
@@ -797,6 +831,7 @@ int main(int argc, char **argv) {
         std::vector<std::string> p = split(std::string(line + 5), '\t');
         if (p.size() == 3) { std::string key = p[0] + "|" + p[1]; if (!S.viol_keys.count(key)) { S.viol_keys.insert(key); S.viols.push_back(Viol{p[0], p[1], p[2] == "-" ? "" : p[2]}); } }
       } else if (!strncmp(line, "diag ", 5)) S.diags.insert(line + 5);
+      else if (!strncmp(line, "wr ", 3)) S.written.insert((uintptr_t)strtoul(line + 3, nullptr, 16));
     }
     fclose(f);
     int st = 0;
@@ -820,6 +855,9 @@ int main(int argc, char **argv) {
   printf("],\"diags\":[");
   firstj = true;
   for (auto &d : S.diags) { printf("%s\"%s\"", firstj ? "" : ",", jesc(d).c_str()); firstj = false; }
+  printf("],\"written\":[");
+  firstj = true;
+  for (auto a : S.written) { printf("%s\"%lx\"", firstj ? "" : ",", (unsigned long)a); firstj = false; }
   printf("]}\n");
   return 0;
 }
